@@ -35,6 +35,8 @@ WORDS = ["abc", "x", "hello world", "Zed", "k_1", "qq-rr", "a/b", "sp ace", "tab
          "emoji\U0001F600", "quote\"d", "back\\slash", "new\nline"]
 TRICKY = ["", "1", "null", "true", "None", "True", "[1]", "{\"a\": 1}", "1.5", "2020-01-02", "ab", "\"q\"", "P1D",
           "0", "-3", "1e5", "nan", "Infinity"]
+FLAVOURS = ["dataclass", "dc_slots", "dc_frozen", "dc_kwonly", "namedtuple", "typeddict", "td_nottotal", "plain",
+            "slots_cls"]
 SAFE_ALPHA = ["alpha", "beta", "gamma", "delta", "omega", "kappa"]
 
 
@@ -99,9 +101,8 @@ class Gen:
                 ms.insert(r.randint(0, len(ms)), ("none",))
             return (k, ms, r.choice(["Union", "pipe"]))
         if k == "cls":
-            flavour = r.choice(["dataclass", "dataclass", "dc_slots", "dc_frozen", "dc_kwonly", "namedtuple",
-                                "typeddict", "td_nottotal"])
-            nf = r.randint(0, 4) if flavour not in ("namedtuple",) else r.randint(1, 4)
+            flavour = r.choice(FLAVOURS + ["dataclass", "typeddict"])
+            nf = r.randint(0, 4) if flavour not in ("namedtuple", "plain", "slots_cls") else r.randint(1, 4)
             fields = [(f"f{i}", self.gen_type(depth - 1)) for i in range(nf)]
             return self.def_class(flavour, fields)
         if k == "enum":
@@ -132,12 +133,19 @@ class Gen:
             lines.append(f"class {name}(typing.NamedTuple):")
         elif flavour == "typeddict":
             lines.append(f"class {name}(typing.TypedDict):")
-        else:
+        elif flavour == "td_nottotal":
             lines.append(f"class {name}(typing.TypedDict, total=False):")
-        if not fields:
+        else:           # "plain": annotated class with a matching __init__; "slots_cls": the same with __slots__
+            lines.append(f"class {name}:")
+            if flavour == "slots_cls":
+                lines.append("    __slots__ = (" + "".join(f"'{fn}', " for fn, _ in fields) + ")")
+        if not fields and flavour not in ("plain", "slots_cls"):
             lines.append("    pass")
         for fn, ft in fields:
             lines.append(f"    {fn}: {self.texpr(ft)}")
+        if flavour in ("plain", "slots_cls"):
+            lines.append("    def __init__(self" + "".join(f", {fn}: {self.texpr(ft)}" for fn, ft in fields) + "):")
+            lines += [f"        self.{fn} = {fn}" for fn, _ in fields] or ["        pass"]
         self.defs.append("\n".join(lines))
         return ("cls", flavour, name, fields)
 
@@ -461,6 +469,49 @@ def canon(x):
         return [tn, [canon(e) for e in x]]
     if dataclasses.is_dataclass(x) and not isinstance(x, type):
         return [tn, [[f.name, canon(getattr(x, f.name))] for f in dataclasses.fields(x)]]
+    if type(x).__module__.startswith("verif_c02") and getattr(type(x), "__annotations__", None) is not None \
+            and not isinstance(x, type):
+        # generated plain / __slots__ class (no __eq__, no useful repr): compare field by field
+        return [tn, [[n, canon(getattr(x, n, "<unset>"))] for n in type(x).__annotations__]]
     if isinstance(x, (datetime.datetime, datetime.time)):
         return [tn, x.isoformat()]
     return [tn, repr(x)]
+
+
+# ---- systematic sweep: every structured flavour x members whose marshalled form differs from the value ----
+MEMBER_KINDS = ["decimal", "fraction", "uuid", "path", "date", "datetime", "time", "timedelta", "enum",
+                "nested:dataclass", "nested:typeddict", "nested:namedtuple", "nested:plain",
+                "list:uuid", "dict:date", "opt:datetime", "tuple_fix:decimal", "set:path"]
+
+
+def sweep_cases(rng: random.Random) -> list[dict]:
+    out = []
+    for flavour in FLAVOURS:
+        for mk in MEMBER_KINDS:
+            g = Gen(rng, 2)
+            if mk == "enum":
+                m = g.def_enum(rng.choice(["plain_int", "plain_str", "intenum", "strmixin"]))
+            elif mk.startswith("nested:"):
+                m = g.def_class(mk[7:], [("g0", (rng.choice(["uuid", "datetime", "decimal", "date"]),)), ("g1", ("int",))])
+            elif mk.startswith("list:"):
+                m = ("list", (mk[5:],))
+            elif mk.startswith("dict:"):
+                m = ("dict", ("str",), (mk[5:],))
+            elif mk.startswith("opt:"):
+                m = ("opt", (mk[4:],), "Optional")
+            elif mk.startswith("tuple_fix:"):
+                m = ("tuple_fix", [(mk[10:],), ("int",)])
+            elif mk.startswith("set:"):
+                m = ("set", (mk[4:],))
+            else:
+                m = (mk,)
+            t = g.def_class(flavour, [("f0", ("int",)), ("f1", m), ("f2", ("str",))])
+            for _ in range(40):
+                g.inq, g.why = True, set()
+                vexpr, _a = g.gen_value(t)
+                if "f1=" in vexpr and "f1=None" not in vexpr and g.inq:
+                    break
+            out.append({"source": PRELUDE + "\n".join(g.defs) + "\n", "texpr": g.texpr(t), "vexpr": vexpr, "head": "cls",
+                        "inq": g.inq, "c01_safe": g.safe, "why": sorted(g.why) + [f"sweep:{flavour}:{mk}"],
+                        "union": g.union, "bytes_t": False, "depth": type_depth(t)})
+    return out
